@@ -104,6 +104,23 @@ class Model:
     def role_of_field(self, tname):
         return self.roles.get(tname)
 
+    # ------------------------------------------------------------------ the canonicaliser of undirected pairs
+    def ordered_edge(self):
+        """qualified name of the non-public static helper of the undirected storage class that maps two vertices to the
+        canonical key (pair of vertices): found by signature, so that a rename is followed"""
+        if not hasattr(self, '_ordered_edge'):
+            name = LUG + '::orderedEdge'
+            for f in self.fns:
+                if f.record == LUG and f.is_static and f.access != 'public' and len(f.params) == 2 and \
+                        all(c.replace('const ', '').strip() == 'unsigned int' for c in f.cptypes) and \
+                        'std::pair<unsigned int, unsigned int>' in self.p_decl(f).get('crtype', ''):
+                    name = f.tname
+            self._ordered_edge = name
+        return self._ordered_edge
+
+    def p_decl(self, f):
+        return f.unit.decls[f.decl]
+
     # ------------------------------------------------------------------ throwing helpers
     def thrower_type(self, g):
         """exception type when g is a function that does nothing but throw (the out-of-line failure path of a check):
